@@ -51,3 +51,14 @@ Definition go (r' : re) := fix go (s : list nat) : bool :=
 Lemma bt_star r' s : bt (RStar :: r') s = star r' s. Proof. reflexivity. Qed.
 Lemma fn_star r' s : fn (RStar :: r') s = go r' s. Proof. reflexivity. Qed.
 
+
+(* ---- Pattern::matches (glob.rs) since 7a55db0: no backtracking.  The pieces are taken from left to right while the set of
+   positions of the subject that the pieces so far can reach is kept: reach[j] = "they can match exactly the first j characters" ---- *)
+Fixpoint spread (seen : bool) (l : list bool) : list bool :=            (* after "*": everything from the first reachable position on *)
+  match l with [] => [] | r :: l' => (seen || r) :: spread (seen || r) l' end.
+Fixpoint shift (f : nat -> bool) (l : list bool) (s : list nat) : list bool :=   (* one character that passes the test *)
+  match l, s with r :: l', c :: s' => (r && f c) :: shift f l' s' | _, _ => [] end.
+Definition step_reach (s : list nat) (reach : list bool) (it : ritem) : list bool :=
+  match it with RStar => spread false reach | RSingle f => false :: shift f reach s end.
+Definition reach0 (s : list nat) : list bool := true :: repeat false (length s).
+Definition nfa (r : re) (s : list nat) : bool := nth (length s) (fold_left (step_reach s) r (reach0 s)) false.
